@@ -52,6 +52,9 @@ SRC, TGT = 0x0E00, 0x001D
 HS, HD = 0xF4, 0x10
 
 
+HORIZON = 20000.0  # virtual seconds; far beyond (max_retry + 1) x (timeout + ack time + pending polls + backoff)
+
+
 def shards(tier: str, seed: int) -> list[dict[str, Any]]:
     if tier == "quick":
         return [{"mode": "virtual", "transport": t, "step": 1, "client": c} for t in TRANSPORTS for c in (False, True)] + [{"mode": "real", "n": 6, "part": i} for i in range(4)]
@@ -417,7 +420,11 @@ def one(ctx: Any, sc: dict[str, Any]) -> None:
     ctx.case(repr(sc), nontrivial=sc["cut_at"] is not None and sc["cut_at"] < total)
     coro = run_client_level(sc) if sc["level"] == "client" else run_transport_level(sc)
     try:
-        out = vtime.run(coro)
+        out = vtime.run(coro, horizon=HORIZON)
+    except vtime.Unbounded:
+        ctx.violation(f"{sc['transport']}/{sc['level']}/unbounded/{sc['kind']}/{'peer-gone-for-good' if sc.get('restart_at', 0) > HORIZON else 'peer-back'}",
+                      f"the operation was still running after {HORIZON:.0f} virtual seconds", {"scenario": sc})
+        return
     except vtime.Deadlock:
         lab, where = frame_position(sc["transport"], sc["cut_at"] or 0, sc.get("pending", False))
         ctx.violation(f"{sc['transport']}/{sc['level']}/blocks-forever/{sc['kind']}/{'timeout' if sc['timeout'] is not None else 'no-timeout'}/cut-in-{lab}",
@@ -562,6 +569,8 @@ def run(ctx: Any, params: dict[str, Any]) -> None:
                             if mr == 2 and (k % 2 or d == 0.05):
                                 continue
                             one(ctx, {"transport": t, "level": "client", "cut_at": k, "kind": kind, "timeout": rng.choice([0.3, 2.0]), "restart_at": d, "max_retry": mr})
+                    # the peer never accepts a connection again: the request still has to end (with an error) in bounded time
+                    one(ctx, {"transport": t, "level": "client", "cut_at": k, "kind": kind, "timeout": rng.choice([0.3, 2.0]), "restart_at": 1e9, "max_retry": rng.choice([1, 2])})
                     # the loss hits a request without retries; the next request on the same client (one retry) must still get through
                     one(ctx, {"transport": t, "level": "client", "cut_at": k, "kind": kind, "timeout": rng.choice([0.3, 2.0]), "restart_at": 0.0, "max_retry": 1, "two_requests": True})
                     if t == "doip" and kind != "silence":
